@@ -5,7 +5,7 @@ VERIF = os.path.dirname(os.path.dirname(os.path.dirname(os.path.abspath(__file__
 DRIVER_DIR = os.path.join(VERIF, 'engine', 'mirdump')
 DRIVER = os.path.join(DRIVER_DIR, 'target', 'release', 'mirdump')
 CACHE = os.path.join(VERIF, '.cache')
-KEEP = 6
+KEEP = 14
 
 SELECTIONS = {
     # whole workspace, library with its optional feature (superset build): build script, lib, fst-bin, bench
